@@ -205,6 +205,7 @@ type Exec struct {
 	tier       string
 	trackGlobals bool
 	prop       string
+	syncMaps   map[string]*MapV
 	stubs      map[string]Value
 	ptrInts    map[string]*Term
 	facts      map[string]*Term
@@ -335,6 +336,7 @@ func (e *Exec) resetPath(prefix []Decision) {
 	e.globalCells = nil
 	e.pathFuncs = map[string]int{}
 	e.lastPanic = nil
+	e.syncMaps = map[string]*MapV{}
 	e.stubs = map[string]Value{}
 	e.ptrInts = map[string]*Term{}
 	e.facts = map[string]*Term{}
